@@ -20,16 +20,17 @@ CLAIMS = {
             "invariant INV: the send step hands the network exactly the probe it stores as Awaited (or marks exactly that "
             "probe Failed), the receive step completes exactly the awaited probe the response names with the response's "
             "responder / receive time / kind / code and the probe's own ttl / send time, and publish exposes exactly the "
-            "round's slots. Whole-run quantification follows by induction over steps (not by a solver query).",
+            "round's slots; the identity round-trip and the quotation parsers (C02 groups) run under this property too. "
+            "Whole-run quantification follows by induction over steps (not by a solver query).",
             "Slot effects are decided at representative concrete window positions (round_sequence, size) with every other "
             "field symbolic; scalar behaviour for all positions. Not covered: per-hop totals in a snapshot (aggregator, see "
-            "C05), the six-line glue of recv_response between decision and effect (read, not encoded), wire-level ground "
-            "truth is C02/C04/C11."),
+            "C05), the six-line glue of recv_response between decision and effect (read, not encoded); the emit side of "
+            "the wire contract is C11."),
     "C02": ("The loop encode -> quote -> decode -> match is closed compositionally across a byte-level wire contract: "
             "(a) for all 2^16 sequences x rounds x ports x addresses per configuration family, the identity probe_data puts "
             "into a probe is recovered from a conforming quotation and accepted, and a quotation with another destination, "
             "another fixed port, a missing Dublin marker or a foreign ICMP id is rejected; (b) dispatch puts those fields "
-            "where the contract says (C11 harnesses); (c) the extract functions read them from there for every quotation of "
+            "where the contract says (the dispatch harnesses of C11 / C13 run under this property too); (c) the extract functions read them from there for every quotation of "
             "symbolic content and length up to the bound.",
             "Quotation length bound N = 48/64 bytes (IPv4 IHL 5..15), IPv6 48..64/80; composition across the contract is by "
             "reading; the RFC 4884 extension split is C14; unprivileged kernel-built headers are outside the claim."),
@@ -55,12 +56,14 @@ CLAIMS = {
             "first/max ttl, max-inflight all symbolic) against a network answering with an arbitrary outcome: a probe goes "
             "out only inside the discipline (ttl = the state's counter, <= max-ttl, not after the target answered, <= known "
             "target distance, <= max-inflight beyond the farthest answered hop), the first probe of a round always goes out, "
-            "the ttl counter moves by exactly one per fresh probe and not at all per TCP re-issue. Consecutiveness over a "
-            "round follows by induction.", "Slot contents at representative window positions; real-time pacing is outside."),
+            "the ttl counter moves by exactly one per fresh probe and not at all per TCP re-issue; advance_round restarts "
+            "every round at first-ttl with the target / progress bookkeeping cleared. Consecutiveness over a round follows "
+            "by induction.", "Slot contents at representative window positions; real-time pacing is outside."),
     "C07": ("INV (sequence window arithmetic) is preserved by every mutator for all initial sequences, both maximum-sequence "
             "regimes and all round sizes in single queries: issued sequences are consecutive, < 65534, index < 512; the "
             "Dublin/IPv6 payload length fits the buffer; after advance_round no sequence of the round just ended is inside "
-            "the new window; the 512-slot budget ends in InsufficientCapacity, never an out-of-bounds slot.",
+            "the new window; the 512-slot budget ends in InsufficientCapacity, never an out-of-bounds slot; the builder "
+            "rejects initial sequences above MAX_INITIAL_SEQUENCE (base of INV).",
             "Separation has two recorded findings (F7: initial > 63999; F8: Dublin/IPv6 regime) decided by region-twin "
             "harnesses. next_probe is decided for all window positions; reissue_probe at seven representative positions in "
             "the quick tier (all positions and the base case TracerState::new |= INV in the thorough tier)."),
@@ -69,7 +72,8 @@ CLAIMS = {
             "round id +1, next round starts at the next clock reading, otherwise nothing changes.",
             "'max + one read timeout' follows from the iff under the assumption that loop iterations are at most one read "
             "timeout apart (is_readable's wall-clock behaviour is outside)."),
-    "C09": ("finished(n) <=> round >= n for all n; each publish advances the round id by exactly one (C08 harness); send "
+    "C09": ("finished(n) <=> round >= n for all n; each publish advances the round id by exactly one (C08 harness and the "
+            "round-to-round step); send "
             "faults: ProbeFailed marks exactly that probe Failed and continues, AddressInUse (TCP) skips the slot and "
             "re-issues with the same ttl under the next sequence, any other error is returned unchanged; receive errors are "
             "returned unchanged; ErrorMapper maps every errno class as documented.",
